@@ -66,3 +66,19 @@ Proof.
   split; [exact P'|]. split; [exact RT|]. split; [exact L|].
   rewrite F. unfold fin_ok. rewrite live_beq_refl, disk_beq_refl, N.eqb_refl. reflexivity.
 Qed.
+
+(* the sequential specification of a call whose save is refused: the store and the write
+   generation are those before the call (the response is whatever [db_step] answers: the save
+   error, or the ordinary result when the call needed no save) *)
+From Setec Require Import Server.KVProofs Server.DBProofs.
+Theorem lin_db_step_refused cs (s : dbstate V) c o s' r :
+  Inv (kv s) -> lin_db_step cs s (c, false, o) = (s', r) -> kv s' = kv s /\ gen s' = gen s.
+Proof.
+  intros I H. unfold lin_db_step in H.
+  destruct (db_step N.eqb (env_of false) s (get_caller cs c) o) as [[s1 r1] fx] eqn:E.
+  injection H as <- <-.
+  assert (F : save_ok (env_of false) = false) by reflexivity.
+  first [ destruct (@failed_save_rollback V N.eqb (fun a b => N.eqb_eq a b) _ _ _ _ _ _ _ I F E) as (A & B & _)
+        | destruct (@failed_save_rollback V N.eqb _ _ _ _ _ _ _ I F E) as (A & B & _) ].
+  auto.
+Qed.
